@@ -139,10 +139,90 @@ def run(ctx):
                                 kr.violation(be, "comparison disagrees with the exact order of the physical magnitudes", blk,
                                              f"{fwd['cmp']} / eq {fwd['eq']}", f"{want} (magnitudes {kc.ff(Ma)} vs {kc.ff(Mb)})", cls=cls)
             i = nxt
+        if not ctx.replay:
+            published(ctx, kr, be, types)
     return kr.result("every type with reference unit x ALL ordered unit pairs x amount pairs (equal-by-construction magnitudes k*s_v vs k*s_u and k vs k*s_u/s_v for several k, "
                      "their one-step neighbours, clearly separated values, IEEE specials): all six relations and partial_cmp in BOTH operand orders; judged for (i) consistency of the derived operators, "
                      "(ii) same-unit = amount type's own, (iii) order independence for non-NaN amounts, (iv) agreement with the exact rational order when separated by more than one conversion's rounding; "
                      "non-trivial = distinct (back-end, type, unit pair, class, amounts)", exhaustive=True)
+
+
+_SPEC = {}
+
+
+def published_scales(ctx):
+    """unit identifier (variant spelling) -> published scale as an exact rational, per quantity, from the
+    independently written definition table Spec/Units.v (the one C07 judges the catalogue against)"""
+    if "spec" not in _SPEC:
+        try:
+            import c07
+            _SPEC["spec"] = c07.load_spec(ctx)
+        except Exception as e:  # no Coq build of the specification: this block is skipped, nothing is claimed from it
+            ctx.log.both(f"[C02] published-definition block skipped: {e}")
+            _SPEC["spec"] = {}
+    return _SPEC["spec"]
+
+
+def published(ctx, kr, be, types):
+    """The physical magnitude of a value is amount x PUBLISHED scale of its unit.  For every ordered unit pair of
+    every catalogue quantity: a = k in u, b = the same magnitude in v moved by +-1e-12 relative (far beyond the
+    rounding of one conversion and of the scales themselves, which C07 bounds by the precision of the amount type);
+    the comparison has to report the order the published definitions give."""
+    spec = published_scales(ctx)
+    if not spec:
+        return
+    REL = Fraction(1, 10 ** 12)
+    ops, meta = [], []
+    for t in types:
+        if t.name == "AMOUNT" or t.crate not in ("quantities", "astronomical"):
+            continue
+        sp = spec.get((t.crate, t.entry["qty"]))
+        if not sp:
+            continue
+        by_variant = {nm.replace(" ", ""): v for nm, v in sp.items()}
+        pub = []
+        for var in t.entry["VARIANTS"]:
+            r = by_variant.get(var)
+            pub.append(r[3] if r and r[2] == "Q" else None)
+        for u in range(t.n):
+            for v in range(t.n):
+                if u == v or pub[u] is None or pub[v] is None:
+                    continue
+                k = ctx.rng.choice([Fraction(12), Fraction(7, 4), Fraction(-5), Fraction(1000)])
+                a = round_to(be, k)
+                va = kc.value(be, a)
+                for sgn in (1, -1):
+                    b = round_to(be, va * pub[u] / pub[v] * (1 + sgn * REL))
+                    ops += [f"cmp {t.name} {a} {u} {b} {v}", f"eq {t.name} {a} {u} {b} {v}", f"cmp {t.name} {b} {v} {a} {u}"]
+                    meta.append((t, a, u, b, v, pub[u], pub[v]))
+    if not ops:
+        return
+    impl = kr.run(be, ops)
+    for j, (t, a, u, b, v, pu, pv) in enumerate(meta):
+        c, e, cr = impl[3 * j:3 * j + 3]
+        blk = " ; ".join(ops[3 * j:3 * j + 3])
+        if "PANIC" in (c, e, cr):
+            continue
+        va, vb = kc.value(be, a), kc.value(be, b)
+        if va is None or vb is None:
+            continue
+        Ma, Mb = va * pu, vb * pv
+        if be == "f64":
+            if not all(in_normal(x) for x in (va, vb, Ma, Mb, pu, pv)):
+                continue
+            thr = 8 * U * max(abs(Ma), abs(Mb))
+        else:
+            thr = 4 * EPS * (abs(va) + abs(vb) + 2)
+        if abs(Ma - Mb) <= thr:
+            continue
+        kr.count(f"{be}:published-definition:separated-1e-12")
+        kr.nontrivial.add((be, t.name, u, v, "published", a, b))
+        want = "Some Less" if Ma < Mb else "Some Greater"
+        wrev = "Some Greater" if Ma < Mb else "Some Less"
+        if c != want or e != "false" or cr != wrev:
+            kr.violation(be, "comparison disagrees with the order of the physical magnitudes given by the published unit definitions", blk,
+                         f"{c} / eq {e} / reversed {cr}", f"{want} (magnitudes {kc.ff(Ma)} vs {kc.ff(Mb)}, published scales {kc.ff(pu)} and {kc.ff(pv)})",
+                         cls="published")
 
 
 def match_known(v, known):
